@@ -102,6 +102,15 @@ def generic_state(sys_, keys, form, gauge, cplx):
         sv = m.calc_bond_singular_values() if form == "mps" else None
         if sv is None or min(float(np.min(row[row > 0])) for row in sv if np.any(row > 0)) > 2e-2:
             break
+    if gauge == "skew":
+        # same state, same bonds, same flags, but a positive diagonal gauge D / D^-1 inserted on a middle bond (diagonal
+        # matrices respect the quantum-number blocks): the tensors are no longer isometries
+        k = max(0, len(m) // 2 - 1)
+        d = m[k].shape[-1]
+        g = np.exp(rng_for(*keys, "skew").uniform(-0.7, 0.7, size=d))
+        m[k] = m[k].array * g
+        a1 = m[k + 1].array
+        m[k + 1] = np.moveaxis(np.moveaxis(a1, 0, -1) / g, -1, 0)
     if gauge == "cano1":
         m.canonicalise()
     elif gauge == "moved":
@@ -119,7 +128,7 @@ def make_config(scheme, c, dt, sys_):
     if adaptive:
         # a guess larger than the step (so that the first trial is the whole step and may be rejected), same phase as dt
         # tight tolerance for the propagate-and-compress controllers so that the first trial (the whole step) IS rejected
-        kw.update(adaptive=True, guess_dt=dt * 1.0, adaptive_rtol=(1e-5 if scheme == "cmf" else 1e-8))
+        kw.update(adaptive=True, guess_dt=dt * 1.0, adaptive_rtol={"cmf": 1e-5, "ps": 1e-6, "ps2": 1e-6}.get(scheme, 1e-8))
     if scheme == "pc_rk":
         kw["rk_solver"] = c["rk"] if scheme == c["scheme"] else "C_RK4"
     cfg = EvolveConfig(meth, **kw)
@@ -143,9 +152,10 @@ def scheme_order(scheme, c):
     return None
 
 
-def evolve_once(sys_, state, scheme, c, dt, td):
+def evolve_once(sys_, state, scheme, c, dt, td, keep_config=False):
     from renormalizer.utils import CompressConfig, CompressCriteria
-    state.evolve_config = make_config(scheme, c, dt, sys_)
+    if not keep_config:
+        state.evolve_config = make_config(scheme, c, dt, sys_)
     cc = CompressConfig(CompressCriteria.fixed, max_bonddim=int(max(sys_.caps)) ** (2 if c["form"] == "mpdm" else 1))
     state.compress_config = cc
     op = sys_.mpo_t if td else sys_.mpo
@@ -169,7 +179,7 @@ def run_case(sys_, case, idx, seed):
         return out
     ref0 = st.dense(psi0)
     vec0 = ref0.reshape(-1) if form == "mps" else ref0
-    full_bond = list(psi0.bond_dims) == (sys_.caps if form == "mps" else st.exact_bond_caps(sys_.dims, squared=True))
+    full_bond = all(x >= y for x, y in zip(psi0.bond_dims, (sys_.caps if form == "mps" else st.exact_bond_caps(sys_.dims, squared=True))))
     cur = psi0
     t = 0.0
     allowed = 0.0
@@ -203,15 +213,14 @@ def run_case(sys_, case, idx, seed):
         t += tau
         got = st.dense(new)
         gv = got.reshape(-1) if form == "mps" else got
-        if imag:
-            # normalize("mps_and_coeff"): compare normalised vectors
-            rn = ref / np.linalg.norm(ref)
-            gn = gv / (np.linalg.norm(gv) + 1e-300)
-            err = float(np.linalg.norm(gn - rn))
-            if abs(np.linalg.norm(gv) - 1) > 1e-8:
-                V(f"C10:norm-after-imag:{scheme}", f"after imaginary-time evolve the state has norm {np.linalg.norm(gv)} (normalize='mps_and_coeff' promises 1)", {"call": ci})
-        else:
-            err = float(np.linalg.norm(gv - ref) / (np.linalg.norm(ref) + 1e-300))
+        # evolve(normalize=True) rescales the result ("mps_and_coeff" in imaginary time, "mps_only" in real time): compare directions
+        rn = ref / np.linalg.norm(ref)
+        gn = gv / (np.linalg.norm(gv) + 1e-300)
+        err = float(np.linalg.norm(gn - rn))
+        if imag and abs(np.linalg.norm(gv) - 1) > 1e-8:
+            V(f"C10:norm-after-imag:{scheme}", f"after imaginary-time evolve the state has norm {np.linalg.norm(gv)} (normalize='mps_and_coeff' promises 1)", {"call": ci})
+        if not imag and abs(new.mp_norm - 1) > 1e-8:
+            V(f"C09:norm-after-evolve:{scheme}", f"after real-time evolve the tensor part has norm {new.mp_norm} (normalize='mps_only' promises 1)", {"call": ci})
         p = scheme_order(scheme, c)
         exactish = p is None and (full_bond or scheme in ("pc_taylor", "pc_rk4", "pc_rk", "ps2"))
         out["meas"].append({"scheme": scheme, "p": p, "tau": tau, "err": err, "adaptive": bool(c["adaptive"]) and scheme == c["scheme"], "solver": c["solver"],
@@ -238,9 +247,10 @@ def run_case(sys_, case, idx, seed):
         dt = -1j * tau if imag else tau
         psi = generic_state(sys_, (seed, "evolve", idx), form, c["gauge"], cplx=(idx % 2 == 1))
         r1 = evolve_once(sys_, psi, scheme, c, dt, td)
-        r2 = evolve_once(sys_, psi, scheme, c, dt, td)
+        # second call on the SAME object with the configuration it now carries (a caller re-using its initial state)
+        r2 = evolve_once(sys_, psi, scheme, c, dt, td, keep_config=True)
         d12 = np.linalg.norm(st.dense(r1) - st.dense(r2)) / (np.linalg.norm(st.dense(r1)) + 1e-300)
-        if d12 > 1e-9:
+        if d12 > 1e-7:
             V(f"{pid}:repeat:{scheme}", f"evolving the SAME input object twice gives results that differ by {d12:.2e}")
         p = scheme_order(scheme, c)
         if p is not None and not c["adaptive"] and not td:
@@ -249,10 +259,7 @@ def run_case(sys_, case, idx, seed):
             g = st.dense(h2)
             g = g.reshape(-1) if form == "mps" else g
             refT = ref
-            if imag:
-                e_half = float(np.linalg.norm(g / np.linalg.norm(g) - refT / np.linalg.norm(refT)))
-            else:
-                e_half = float(np.linalg.norm(g - refT) / np.linalg.norm(refT))
+            e_half = float(np.linalg.norm(g / np.linalg.norm(g) - refT / np.linalg.norm(refT)))
             e_full = out["meas"][-1]["err"]
             out["meas"].append({"scheme": scheme, "p": p, "tau": tau, "ratio": e_half / (e_full + 1e-300), "e_full": e_full, "e_half": e_half, "cmf": c["cmf"], "rk": c["rk"], "imag": imag})
             floor = 2e-6 if scheme == "cmf" else 1e-9
